@@ -85,6 +85,7 @@ fn base_case(rng: &mut Rng) -> VmCase {
         per_yield: 4096,
         container: Container::Slice,
         shape: String::new(),
+        on_worker: rng.chance(1, 2),
     }
 }
 
@@ -224,7 +225,8 @@ pub fn gen_forkjoin(rng: &mut Rng, light: bool) -> VmCase {
     let nested_loop = in_loop && rng.chance(1, 2);
     let mut ops = Vec::new();
     // parent state
-    for _ in 0..rng.usize(4) {
+    let n_prefix_push = rng.usize(4);
+    for _ in 0..n_prefix_push {
         ops.push(PUSH(rng.range(-5, 100)));
     }
     let mem: Vec<Word> = (0..rng.usize(6)).map(|i| 900 + i as Word).collect();
@@ -244,6 +246,13 @@ pub fn gen_forkjoin(rng: &mut Rng, light: bool) -> VmCase {
     if nested_loop {
         tag.push_str("in-nested-repeat,");
         ops.extend([PUSH(1 + rng.range(0, 1)), PUSH(rng.range(0, 1)), REP()]);
+    }
+    if !in_loop && rng.chance(1, 12) {
+        // the parent's stack is full when the Compute executes (the breadth is its 4096th
+        // word): popping the breadth makes room for exactly the child index
+        let room = 4095 - n_prefix_push as Word - *rng.pick(&[0, 0, 0, 1, 2]);
+        tag.push_str(&format!("parent-stack-{},", room + n_prefix_push as Word + 1));
+        ops.extend([PUSH(room - 1), RES()]);
     }
     ops.push(PUSH(breadth));
     ops.push(COM());
@@ -1510,6 +1519,12 @@ fn eval_total(ev: &mut VmEval, case: &VmCase, spec: &SchedSpec, calls: usize) {
             info.reads = log.reads;
             info.event_hash = log.hash;
             ev.infos.push(info);
+            // a bound seen by the monitor counts whatever became of the execution afterwards
+            // (an execution that outgrows a bound typically also outruns the op budget)
+            if let Some(b) = &hs.bound_violation {
+                ev.finding = Some(finding("vm-bound", format!("{b} [{}]", case.shape)));
+                return;
+            }
             match r {
                 Err(p) if p.message.contains("budget") => ev.note("budget_skipped"),
                 Err(p) if p.location.contains("/verif/sim/") => {
